@@ -1,5 +1,6 @@
 import Sml.Props.C08
 import Sml.Lemmas.C08Cut
+import Sml.Lemmas.Review2a
 #print axioms Sml.C08.noise_then_frame
 #print axioms Sml.C08.noise_then_frame_state
 #print axioms Sml.C08.noise_then_frame_idle
@@ -10,3 +11,6 @@ import Sml.Lemmas.C08Cut
 #print axioms Sml.C08.cut_then_frame_idle
 #print axioms Sml.C08.noise_cut_then_frame
 #print axioms Sml.C08.noise_cut
+#print axioms Sml.C08.START_no_period
+#print axioms Sml.C08.START_length
+#print axioms Sml.C08.startFree_iff
